@@ -91,9 +91,10 @@ theorem replace_tokens_spec (hvt : VtLossless vt) (p1 a : Bytes) (rest : List By
 /-! ### several filters compose in order; the chain model -/
 
 /-- **One filter in its domain (`InDomain`, the four cases above), on the chain model**: when the
-tokenizer sees the serialised document as `tokensOfList vt doc` (`TokAgree`), the chain built by
-`FilterBodyAction::new` and fed the document as one chunk emits the serialisation of the reference
-edit. -/
+stream tokenizer of `filter` (`tk.stream []` = `Tokenizer::new_fragment(data, "")`, /repo since fe7eac6) sees the
+serialised document as `tokensOfList vt doc`, leaves nothing and no token is cut short by the end of the data
+(`TokAgree`), the chain built by `FilterBodyAction::new` and fed the document as one chunk emits the serialisation of
+the reference edit. -/
 theorem filter_spec (lower : String → String) (hvt : VtLossless vt) (doc : List Node) (f : BodyFilter)
     (hdom : InDomain tk vt doc f) (hag : TokAgree tk vt doc) :
     (Chain.new noCodec lower [f] [] : Chain Unit Unit).run tk ev noCodec [serializeList doc] =
@@ -143,6 +144,24 @@ theorem tokenize_text_then_tag {tx y : Bytes} {c : Nat} {rest : Bytes} {ts' : Li
     (hy : htmlTokenize? y = some (ts', r)) :
     htmlTokenize? (tx ++ y) = some (⟨.text, tx, []⟩ :: ts', r) :=
   htmlTokenize?_text hne h60 hy0 hop hy
+
+/-- **the same two laws for the stream tokenizer `filter` runs since fe7eac6** (`new_fragment(data, "")`, with the
+`cut` flag and the raw-text context `filter` reads around every `next()`): `StreamTo d ts r` = the tokens of `d` are
+`ts`, `r` is left, and NO token is one that `filter` would hold back as cut short by the end of the data (`isCut`). -/
+theorem stream_append {x y : Bytes} {ts ts' : List Tok} {r : Bytes} (hc : Closed x ts)
+    (hy : StreamTo y ts' r) : StreamTo (x ++ y) (ts ++ ts') r :=
+  streamTo_append hc hy
+
+theorem stream_text_then_tag {tx y : Bytes} {c : Nat} {rest : Bytes} {ts' : List Tok} {r : Bytes}
+    (hne : tx ≠ []) (h60 : ∀ b ∈ tx, b ≠ 60) (hy0 : y = 60 :: c :: rest) (hop : isOpener c = true)
+    (hy : StreamTo y ts' r) : StreamTo (tx ++ y) (⟨.text, tx, []⟩ :: ts') r :=
+  streamTo_text hne h60 hy0 hop hy
+
+/-- a text at the very end of the data IS ended by the end of the data (`cut`), but `filter` does not hold a plain
+text back: it still counts as not cut -/
+theorem stream_text_at_end {tx : Bytes} (hne : tx ≠ []) (h60 : ∀ b ∈ tx, b ≠ 60) :
+    StreamTo tx [⟨.text, tx, []⟩] [] :=
+  streamTo_text_eof hne h60
 
 /-- **`tokenize (serialize d) = tokensOf d`, compositional form** (any document): it suffices that every unit — each
 tag on its own, each raw-text element as a whole, each text together with the tag that follows it — is tokenised as
@@ -301,6 +320,16 @@ theorem tokenize_serialize_universal (doc : List Node) (hs : SimpleL simpleLaws 
     htmlTokenize (serializeList doc) = (tokensOfList vtU doc, []) :=
   tokenize_serialize_of_laws simpleLaws doc hs
 
+/-- **The stream tokenizer of `filter` on every `Simple` document** (what `HtmlFilterBodyAction::filter` iterates over
+since fe7eac6, fresh stage = empty context): the same tokens, nothing left, and no token is held back as cut short by
+the end of the document — so one `filter` call processes every token.  Same proof, from the stream forms of the
+composition laws (`stream_append`, `stream_text_then_tag`, `stream_text_at_end`). -/
+theorem stream_serialize_universal (doc : List Node) (hs : SimpleL simpleLaws doc) :
+    toksOf (htmlTokenize.stream [] (serializeList doc)).1 = tokensOfList vtU doc ∧
+    (htmlTokenize.stream [] (serializeList doc)).2.1 = [] ∧
+    ∀ x ∈ (htmlTokenize.stream [] (serializeList doc)).1, isCut x = false :=
+  streamTo_stream (stream_serialize_of_laws simpleLaws doc hs)
+
 /-- **End to end, universal**: for every `Simple` document (valid UTF-8) and every filter in its domain, the chain model
 with the C16 tokenizer — `FilterBodyAction::new`, one `filter` call, `end` — emits the serialisation of the reference
 edit.  No hypothesis about the tokenizer, no vocabulary restriction. -/
@@ -374,7 +403,8 @@ theorem append_repeated_targets_fails : ¬ AppendRepeatedFull := by
 
 /-- the same at token level (any tokenizer, any oracle) -/
 theorem append_repeated_targets_fails_tokens :
-    runToks (fun _ => ([], [])) (fun _ _ => false) (vis .append none [86] [] [97] [[98]] false)
+    runToks { plain := fun _ => ([], []), stream := fun _ _ => ([], [], []) } (fun _ _ => false)
+        (vis .append none [86] [] [97] [[98]] false)
         (tokensOfList textToks docRepeated) ≠
       serializeList (editD (decOf fun _ _ => false) docRepeated (.html filterActionAppend [[97], [98]] none [86])) := by
   decide
